@@ -1,5 +1,37 @@
 // extra.cc -- oracles for C06 (malformed requests), C17 (misuse), C18 (purge by time); filled in step by step
 #include "harness.h"
+#include <string.h>
 void oracle_misuse_op(const Op& op) { (void)op; H.ops_noop++; }
 void oracle_bad_request(const Op& op) { (void)op; H.ops_noop++; }
-void oracle_purge_check(const Op& op) { (void)op; H.ops_noop++; }
+
+// C18: memory unused for longer than the delay is purged by ordinary later activity (no forced collect)
+static bool is_purge_kind(int k) { return k == OS_MADV_DONTNEED || k == OS_MADV_FREE || k == OS_MPROTECT_NONE; }
+void oracle_purge_check(const Op& op) {
+  const long delay = mi_option_get(mi_option_purge_delay);
+  if (op.a == 2 || delay < 0) {
+    // delay -1: nothing is ever purged
+    if (delay < 0) for (auto& c : g_os.log) if (is_purge_kind(c.kind) && c.err == 0 && c.len >= 65536 && c.kind != OS_MPROTECT_NONE)
+      sim_violation("purged_although_disabled", "purge_delay=-1 but the allocator issued %s on [0x%llx,+0x%llx)", os_kind_names[c.kind], (unsigned long long)c.addr, (unsigned long long)c.len);
+    return;
+  }
+  const uintptr_t SEGMASK = ~(((uintptr_t)32 << 20) - 1);
+  size_t checked = 0;
+  for (auto& w : H.watch) {
+    if (w.dropped) continue;
+    const bool huge = w.usable > (16u << 20);
+    // preconditions of the statement: unused for longer than the delay (op.c ms) and op.b rounds of ordinary activity since
+    if (clock_now_ns() / 1000000ull - w.t_ms < op.c || H.activity_rounds - w.rounds_at_free < op.b) continue;
+    if (!huge) { bool has = false; for (auto b : H.sentinel_bases) if (b == (w.p & SEGMASK)) has = true; if (!has && delay > 0) continue; }
+    // every 64 KiB unit completely inside the freed block must be covered by a purge-type call issued after the free
+    uintptr_t u0 = (w.p + 65535) & ~(uintptr_t)65535, u1 = (w.p + w.usable) & ~(uintptr_t)65535;
+    for (uintptr_t u = u0; u + 65536 <= u1; u += 65536) {
+      bool covered = false;
+      for (size_t i = w.log_index; i < g_os.log.size() && !covered; i++) { const OsCall& c = g_os.log[i]; if (is_purge_kind(c.kind) && c.err == 0 && c.addr <= u && c.addr + c.len >= u + 65536) covered = true; }
+      if (!covered) sim_violation(huge ? "arena_not_purged" : "span_not_purged", "purge_delay=%ld ms: block [0x%llx,+%zu) was freed at t=%llu ms and stayed unused, %llu ms and %d ordinary activity rounds later (no forced collect) the 64KiB unit at 0x%llx has still not been returned to the OS", delay,
+                                  (unsigned long long)w.p, w.usable, (unsigned long long)w.t_ms, (unsigned long long)(clock_now_ns() / 1000000ull - w.t_ms), (int)op.b, (unsigned long long)u);
+    }
+    checked++;
+  }
+  if (checked) probe(PR_segment_purge_by_time, checked);
+}
+
